@@ -193,6 +193,10 @@ class _TransposeFusedMatMulBaseWithBatch(orp.RewriteRuleClassBase):
             return check_result.fail("Permutation values for Transpose are not correct.")
 
         list_perm = list(range(len(perm)))
+        if len(perm) < 3:
+            # The batch permutations degenerate below rank 3 (for N=2, [1..N-2, 0, N-1] is
+            # the identity) and transBatchA/B is meaningless without a batch dimension.
+            return check_result.fail("Batch transpose rules require rank >= 3.")
         if self._flip_transpose_batch and self._flip_transpose:
             #  Case 1: transBatchA/B is 0, Transpose "perm" is [1, 2, ..., N-1, 0]
             #       or transBatchA/B is 1, Transpose "perm" is [N-1, 0, 1, ..., N-2]
